@@ -100,6 +100,7 @@ type EngineB struct {
 	input, callerBuf, unknown, user *Obj
 	assumptions map[string]bool
 	changed  bool
+	fvals    []*ssa.Function
 	methodsByName map[string][]*ssa.Function
 }
 
@@ -581,7 +582,70 @@ func (e *EngineB) callees(call ssa.CallInstruction) []*ssa.Function {
 			add(l.o.fn)
 		}
 	}
+	// a value of a func type declared in the module (clip.Option, orb.Projection, ...) that comes
+	// from the caller: any address-taken module function of that signature may be behind it
+	if nt, ok := cc.Value.Type().(*types.Named); ok && nt.Obj().Pkg() != nil && e.p.SSA[nt.Obj().Pkg().Path()] != nil {
+		if sig, ok := nt.Underlying().(*types.Signature); ok {
+			for _, f := range e.funcValues() {
+				if types.Identical(f.Signature, sig) || sameShape(f.Signature, sig) {
+					add(f)
+				}
+			}
+		}
+	}
 	return out
+}
+
+func sameShape(a, b *types.Signature) bool {
+	if a.Params().Len() != b.Params().Len() || a.Results().Len() != b.Results().Len() || a.Recv() != nil {
+		return false
+	}
+	for i := 0; i < a.Params().Len(); i++ {
+		if !types.Identical(a.Params().At(i).Type(), b.Params().At(i).Type()) {
+			return false
+		}
+	}
+	for i := 0; i < a.Results().Len(); i++ {
+		if !types.Identical(a.Results().At(i).Type(), b.Results().At(i).Type()) {
+			return false
+		}
+	}
+	return true
+}
+
+// funcValues: module functions and closures that are used as values somewhere.
+func (e *EngineB) funcValues() []*ssa.Function {
+	if e.fvals != nil {
+		return e.fvals
+	}
+	seen := map[*ssa.Function]bool{}
+	for _, fn := range e.p.Funcs() {
+		for _, b := range fn.Blocks {
+			for _, in := range b.Instrs {
+				if mc, ok := in.(*ssa.MakeClosure); ok {
+					if f, ok := mc.Fn.(*ssa.Function); ok && !seen[f] {
+						seen[f] = true
+						e.fvals = append(e.fvals, f)
+					}
+				}
+				for _, op := range in.Operands(nil) {
+					f, ok := (*op).(*ssa.Function)
+					if !ok || seen[f] || len(f.Blocks) == 0 {
+						continue
+					}
+					if call, isCall := in.(ssa.CallInstruction); isCall && call.Common().Value == f {
+						continue
+					}
+					seen[f] = true
+					e.fvals = append(e.fvals, f)
+				}
+			}
+		}
+	}
+	if e.fvals == nil {
+		e.fvals = []*ssa.Function{}
+	}
+	return e.fvals
 }
 
 func (e *EngineB) lookupMethod(t types.Type, m *types.Func) *ssa.Function {
